@@ -1,6 +1,7 @@
 package main
 
 import (
+	"strconv"
 	"regexp"
 	"fmt"
 	"go/types"
@@ -119,14 +120,33 @@ func (eng *Engine) verifyFunctionSpec(fn *ssa.Function, modes Modes, spec map[st
 		if eng.globalReassigned(gl) {
 			continue
 		}
-		for _, f := range eng.globalInit(gl) {
+		facts := eng.globalInit(gl)
+		for _, f := range facts {
 			if f.kind == "" {
 				continue
 			}
 			g.assume(fmt.Sprintf("(= %s %s)", sel(st0.H[f.kind], fmt.Sprintf("(- %d)", eng.globalID(gl)), fmt.Sprint(f.slot)), f.term))
 		}
+		// a byte array whose every element is a known constant: also as one string (saves the element-wise argument)
+		if at, ok := gl.Type().(*types.Pointer).Elem().Underlying().(*types.Array); ok && at.Len() > 0 && at.Len() <= 64 {
+			if bt, ok := at.Elem().Underlying().(*types.Basic); ok && bt.Kind() == types.Uint8 {
+				bs := make([]byte, at.Len())
+				known := map[int]bool{}
+				for _, f := range facts {
+					if f.kind == "I" && f.slot >= 0 && f.slot < len(bs) {
+						if v, err := strconv.Atoi(f.term); err == nil && v >= 0 && v < 256 {
+							bs[f.slot] = byte(v)
+							known[f.slot] = true
+						}
+					}
+				}
+				if len(known) == len(bs) {
+					g.assume(fmt.Sprintf("(seqeq (sofarr (select %s (- %d)) 0 %d) %s)", st0.H["I"], eng.globalID(gl), len(bs), g.strLit(string(bs))))
+				}
+			}
+		}
 	}
-	top := &Act{g: g, fn: fn, prefix: "", top: true, tuples: map[ssa.Value][]string{}, ct: ct, lets: map[string]tv{}}
+	top := &Act{g: g, fn: fn, prefix: "", top: true, tuples: map[ssa.Value][]string{}, ct: ct, lets: map[string]tv{}, firedCuts: map[*Cut]bool{}}
 	var args []string
 	for i, p := range fn.Params {
 		n := g.havoc("p_"+p.Name(), g.sortOf(p.Type()))
@@ -312,7 +332,16 @@ func (eng *Engine) verifyFunctionSpec(fn *ssa.Function, modes Modes, spec map[st
 	if modes.Probes {
 		g.oblige("PROBE", "entry-reachable", "true", "false", eng.prog.Fset.Position(fn.Pos()), "must-fail reachability probe after requires").probe = true
 	}
+	g.seq++
+	g.entrySeq = g.seq
 	top.run2(args, st0, "true")
+	if ct != nil && modes.Post {
+		for _, c := range ct.Cuts {
+			if !top.firedCuts[c] {
+				panic(contractError{fmt.Sprintf("%s: no statement `%s` in %s for the intermediate assertion", c.Cl.Where, c.Anchor, shortFn(fn))})
+			}
+		}
+	}
 	if len(top.rets) == 0 && modes.Post {
 		g.note("function never returns normally")
 	}
@@ -368,6 +397,8 @@ func (a *Act) checkPost(r retInfo) {
 			if o != nil {
 				o.splits = cl.Splits
 			}
+			// the clauses are proved in order; a later one may rely on the earlier ones (each is an obligation of its own)
+			g.assumeIf(r.reach, c)
 		}
 	}
 	if g.eng.probes {
